@@ -893,9 +893,9 @@ def register(E):
         """symbolic clock reading: nanoseconds since signatureReferenceDate (2015-01-01), non-decreasing, and below
         2^48 * 10 us (year 2104), the range in which the 48-bit MAVLink timestamp is defined"""
         v = E.add_nondet('bv', 64)
-        E.add(z3.ULT(v, BV((1 << 48) * 10000, 64)))
+        E.assume(E.cmp_int('<', v, (1 << 48) * 10000, 64, False))
         if E.clock_last is not None:
-            E.add(z3.UGE(v, E.clock_last))
+            E.assume(E.cmp_int('>=', v, E.clock_last, 64, False))
         E.clock_last = v
         E.clock_count += 1
         return v
@@ -1013,32 +1013,80 @@ def register(E):
         E.chan_hooks[id(ch)] = args[1]
     I['@verifChanOnSend'] = v_chanonsend
 
+    REF_SEC0 = 1420070400 + 62135596800
+
+    def mk_clock(E, ns):
+        """the time.Time that verifClockRef.Add(time.Duration(ns)) returns for 0 <= ns < 2^62: no monotonic reading,
+        wall = nanoseconds within the second, ext = seconds since year 1, loc = nil (UTC); plus the reading itself"""
+        if type(ns) is int:
+            r = ClockTime((ns % 1000000000, REF_SEC0 + ns // 1000000000, None))
+        else:
+            r = ClockTime((z3.URem(ns, BV(1000000000, 64)), BV(REF_SEC0, 64) + z3.UDiv(ns, BV(1000000000, 64)), None))
+        r.ns = ns
+        return r
+
     def time_now(E, args):
         """time.Now(): wall clock with arbitrary non-decreasing unix nanoseconds; Time{wall: 0, ext: sec since year 1, loc: Local}"""
         ns = time_since_ns(E)
         # exactly what verifClockRef.Add(time.Duration(ns)) computes: the real Time.Add on 2015-01-01T00:00:00Z
         # (wall = 0: no monotonic reading; ext = seconds since year 1; loc = nil: UTC)
-        ref = (0, 1420070400 + 62135596800, None)
-        r = ClockTime(E.call(E.prog.funcs['(time.Time).Add'], [ref, ns], raw=True))
-        r.ns = ns
-        return r
+        return mk_clock(E, ns)
     if opt.get('now_stub'):
         I['time.Now'] = time_now
 
         def v_clock_at(E, args):
-            ref = (0, 1420070400 + 62135596800, None)
-            r = ClockTime(E.call(E.prog.funcs['(time.Time).Add'], [ref, args[0]], raw=True))
-            r.ns = args[0]
-            return r
+            return mk_clock(E, args[0])
         I['@verifClockAt'] = v_clock_at
 
         # documented contracts of Sub / Equal / Add on two instants both produced by the clock stub (differences fit
         # a Duration by the clock contract, so Sub never saturates); any other argument runs the real code
+        REF_SEC = 1420070400 + 62135596800
+
+        def concrete_ns(t):
+            """ns since the reference date of a fully concrete Time without monotonic reading, else None"""
+            if type(t) is ClockTime or not isinstance(t, tuple) or len(t) != 3:
+                return None
+            wall, ext, loc = t
+            if type(wall) is not int or type(ext) is not int:
+                return None
+            if wall & (1 << 63):
+                return None
+            return (ext - REF_SEC) * 1000000000 + (wall & 0x3FFFFFFF)
+
         def t_sub(E, args):
             a, b = args
             if type(a) is ClockTime and type(b) is ClockTime:
                 return E.arith('-', a.ns, b.ns, 64, True)
+            # a concrete instant against a clock instant: documented contract incl. saturation
+            lo, hi = 0, (1 << 48) * 10000
+            ca, cb = concrete_ns(a), concrete_ns(b)
+            if ca is not None and type(b) is ClockTime:
+                if ca - lo < -(1 << 63):
+                    return -(1 << 63)
+                if ca - hi >= -(1 << 63) and ca - lo < (1 << 63):
+                    return E.arith('-', norm(ca, 64, True), b.ns, 64, True)
+            if cb is not None and type(a) is ClockTime:
+                if lo - cb >= (1 << 63) or hi - cb >= (1 << 63) and lo - cb >= (1 << 63):
+                    return (1 << 63) - 1
+                if hi - cb < (1 << 63) and lo - cb >= -(1 << 63):
+                    return E.arith('-', a.ns, norm(cb, 64, True), 64, True)
             return E.call(E.prog.funcs['(time.Time).Sub'], args, raw=True)
+
+        def t_add(E, args):
+            t, d = args
+            if type(t) is not ClockTime:
+                return E.call(E.prog.funcs['(time.Time).Add'], args, raw=True)
+            r = None
+            if type(d) is int or is_sym(d):
+                # stays a clock instant while the sum remains in the clock's range (checked by the solver)
+                s = E.arith('+', t.ns, d, 64, True)
+                inrange = E.and_(E.cmp_int('>=', s, 0, 64, True), E.cmp_int('<', s, (1 << 62), 64, True))
+                noovf = E.cmp_int('>=', d, -(1 << 62), 64, True)
+                noovf = E.and_(noovf, E.cmp_int('<', d, 1 << 62, 64, True))
+                if E.valid(z3.And(*[c if is_sym(c) else z3.BoolVal(c) for c in (inrange, noovf)])):
+                    return mk_clock(E, s)
+            return E.call(E.prog.funcs['(time.Time).Add'], args, raw=True)
+        I['(time.Time).Add'] = t_add
         I['(time.Time).Sub'] = t_sub
 
         def t_equal(E, args):
